@@ -134,6 +134,8 @@ class Check(CheckBase):
             unmet.append(f'sanitized next_cut calls {c.get("asan_calls", 0)} < {need}')
         if c.get('guard_calls', 0) < need // 4:
             unmet.append('too few guard-page calls')
+        if c.get('shared_adapter_streams', 0) < 500:
+            unmet.append('too few streams through a long-lived adapter object')
         for m4 in range(4):
             for fin in (0, 1):
                 for d in range(0, 8):
@@ -142,14 +144,43 @@ class Check(CheckBase):
         return unmet[:6]
 
     # -------------------------------------------------------------------------------------------
-    def _chunks(self, engine, mode, mn, mx, pieces, key, poison=None):
+    def _chunks(self, engine, mode, mn, mx, pieces, key, poison=None, adapter=None):
         br = self.asan if engine == 'asan' else self.plain
         br.mode = mode
         if poison is not None:
             br.poison = poison
         self.mod._gclmulchunker = self.cls[engine]
-        ch = self.adapters.gclmulchunker(min_length=mn, max_length=mx)
+        ch = adapter if adapter is not None else self.adapters.gclmulchunker(min_length=mn, max_length=mx)
         return [bytes(c) for c in ch(iter(pieces), params=key)]
+
+    def _disturb(self, adapter, r, mx):
+        """Leave an adapter object in every state an earlier call can leave it in: a stream under another
+        key run to completion, a stream abandoned after a few chunks, a stream whose source raised."""
+        self.asan.mode = 'exact'
+        self.mod._gclmulchunker = self.cls['asan']
+        how = r.choice(['complete', 'abandoned', 'source-raises', 'no-key'])
+        other_key = r.randbytes(16)
+        if other_key[:8] == bytes(8):
+            other_key = b'\x07' + other_key[1:]
+        data = [r.randbytes(r.randint(1, 3 * mx + 5)) for _ in range(r.randint(2, 5))]
+        if how == 'complete':
+            list(adapter(iter(data), params=other_key))
+        elif how == 'no-key':
+            list(adapter(iter(data), params=None))
+        elif how == 'abandoned':
+            g = adapter(iter(data), params=other_key)
+            next(g, None)
+            del g
+        else:
+            def src():
+                yield data[0]
+                yield data[1]
+                raise OSError(5, 'vf: source failed')
+            try:
+                list(adapter(src(), params=other_key))
+            except OSError:
+                pass
+        return how
 
     def run_case(self, case):
         if case['kind'] == 'adapter':
@@ -171,6 +202,8 @@ class Check(CheckBase):
                               mn + mx, mn + mx - 1, 3 * mx + 7, r.randint(0, 12 * mx + 7),
                               r.randint(0, 40 * mx)]) for _ in range(case['streams'])]
         prev_stream = None
+        self.mod._gclmulchunker = self.cls['asan']
+        shared_adapter = self.adapters.gclmulchunker(min_length=mn, max_length=mx)
         for li, n in enumerate(lengths):
             kind = r.choice(['random', 'random', 'const', 'zeros', 'periodic'])
             data = make_data(r, kind, n)
@@ -211,12 +244,16 @@ class Check(CheckBase):
                                                f'{"/" + poison.hex() if poison else ""}', 'mechanism': None,
                                        'witness': dict(ident, a=lens[:40], b=[len(c) for c in other][:40])})
                     break
-            # earlier calls must not matter
-            if prev_stream is not None and li % 4 == 0:
-                self._chunks('asan', 'exact', mn, mx, prev_stream, key)
-                again = self._chunks('asan', 'exact', mn, mx, pieces, key)
+            # earlier calls must not matter: one long-lived adapter object (as Repository keeps one), left in
+            # every state an earlier call can leave it in, must give what a fresh object gives
+            if li % 2 == 0:
+                how = self._disturb(shared_adapter, r, mx)
+                again = self._chunks('asan', 'exact', mn, mx, pieces, key, adapter=shared_adapter)
+                counters['shared_adapter_streams'] = counters.get('shared_adapter_streams', 0) + 1
+                classes.add(f'adapter|earlier-call|{how}')
                 if again != ref:
-                    violations.append({'what': 'result depends on an earlier call', 'mechanism': None,
+                    violations.append({'what': f'result depends on an earlier call on the same adapter object ({how})',
+                                       'mechanism': None,
                                        'witness': dict(ident, a=lens[:40], b=[len(c) for c in again][:40])})
             # splitting independence outside the tail zone
             other_seg = segment(r, data, r.choice(['one', 'random', 'bytes' if n < 3000 else 'max+1']), mx)
